@@ -5,6 +5,8 @@ from __future__ import annotations
 import io
 import itertools
 
+import time
+
 from ref import codec
 from vlib import core
 from vlib.core import Result
@@ -37,6 +39,7 @@ def shards(tier, seed):
     out.append({"kind": "pair", "n": 120 if tier == "quick" else 20000})
     out.append({"kind": "pair", "n": 120 if tier == "quick" else 20000})
     out.append({"kind": "eof_state", "ks": [1, 2] if tier == "quick" else [1, 2, 3, 4], "noise_runs": 60 if tier == "quick" else 2000})
+    out.append({"kind": "fault_end", "n": 60 if tier == "quick" else 4000})
     return out
 
 
@@ -73,7 +76,62 @@ def same(a, b) -> bool:
 
 
 def run_shard(spec):
-    return {"exh": run_read, "gen": run_read, "pair": run_pair, "eof_state": run_eof_state}[spec["kind"]](spec)
+    return {"exh": run_read, "gen": run_read, "pair": run_pair, "eof_state": run_eof_state, "fault_end": run_fault_end}[spec["kind"]](spec)
+
+
+def run_fault_end(spec):
+    """The channel ends because the connection is lost (peer killed, no close frame): the file still behaves like a file
+    holding the items that arrived - and goes on returning empty results however often the end is reached."""
+    import io
+    import threading
+
+    from vlib import pairs
+
+    res = Result()
+    rng = core.rng_for("C19f", spec["tier"], spec["seed"])
+    M = codec.MSG
+    for run in range(spec["n"]):
+        if res.enough(3):
+            break
+        text = rng.random() < 0.5
+        pieces = ("ab", "c\n", "", "xyz\nq", "\n") if text else (b"ab", b"c\n", b"", b"xyz\nq", b"\n")
+        items = [rng.choice(pieces) for _ in range(rng.randint(0, 4))]
+        script = [rng.choice((0, 1, 2, 7, 100, "L")) for _ in range(rng.randint(1, 4))] + [rng.choice((1, 100, "L")) for _ in range(3)]
+        peer = pairs.ScriptedPeer(tee=False, transport=("pipe", "tcp")[run % 2])
+        try:
+            ch = peer.gw.newchannel()
+            f = ch.makefile("r")
+            ref = (io.StringIO if text else io.BytesIO)((("" if text else b"").join(items)))
+            peer.feed(b"".join(codec.frame(M["CHANNEL_DATA"], ch.id, codec.encode(i, versioned=False)) for i in items))
+            cut_first = rng.random() < 0.5
+            if cut_first:
+                peer.close_peer()
+            got: list = []
+
+            def reader():
+                for c in script:
+                    got.append(f.readline() if c == "L" else f.read(c))
+
+            t = threading.Thread(target=reader, daemon=True)
+            t.start()
+            if not cut_first:
+                time.sleep(0.01)
+                peer.close_peer()
+            t.join(10)
+            want = [ref.readline() if c == "L" else ref.read(c) for c in script]
+            res.count("read_calls", len(script))
+            res.count("fault_end_runs")
+            res.case(core.h64("fault_end", run, tuple(items), tuple(map(str, script))))
+            label = f"items={items} script={script} connection lost {'before' if cut_first else 'during'} the reads"
+            if t.is_alive():
+                res.violation("channelfile-read-blocks-after-connection-loss", f"{label}: call #{len(got)} ({script[len(got)]}) did not return; so far {got}")
+            elif len(got) != len(want) or any(g != w and not (len(g) == 0 and len(w) == 0) for g, w in zip(got, want)):
+                # (an empty result carries no type: a file that never saw a non-empty item cannot know bytes from text)
+                res.violation("channelfile-differs-from-file:after-connection-loss", f"{label}: got {got} want {want}")
+        finally:
+            peer.shutdown(2)
+    res.sample({"fault_end_runs": spec["n"]})
+    return res
 
 
 def run_eof_state(spec):
